@@ -219,7 +219,9 @@ def _mk_async(params: Tuple[str, ...], impl: Any, name: str) -> Any:
 
 
 def run_err(role_i: int, kind_i: int, form_i: int, s0: bool, s1: bool, s2: bool, s3: bool, s4: bool, s5: bool,
-            s6: bool, t: bool, x: int) -> Tuple[bool, bool]:
+            s6: bool, t: bool, x: int, xnone: bool = False) -> Tuple[bool, bool]:
+    if xnone:
+        x = None  # type: ignore  # the argument itself is None
     role_i, kind_i, form_i = conc(role_i, 0, 2), conc(kind_i, 0, 3), conc(form_i, 0, len(FORMS) - 1)
     subset = (concb(s0), concb(s1), concb(s2), concb(s3), concb(s4), concb(s5), concb(s6))
     role, kind, form = ROLES[role_i], KINDS[kind_i], FORMS[form_i]
@@ -300,7 +302,7 @@ def run_err(role_i: int, kind_i: int, form_i: int, s0: bool, s1: bool, s2: bool,
                         ok = False
                     if "result" in kw and kw["result"] != "res":
                         ok = False
-                    if "OLD" in kw and kw["OLD"].ox != ("old", x):
+                    if "OLD" in kw and (kw["OLD"].ox[0] != "old" or kw["OLD"].ox[1] is not x):
                         ok = False
                     if "_ARGS" in kw:
                         exp_args = (x,) if kind in ("func", "afunc") else (prog.inst_holder.get("self"), x)  # type: ignore
@@ -317,7 +319,7 @@ def run_err(role_i: int, kind_i: int, form_i: int, s0: bool, s1: bool, s2: bool,
     return ok, witness
 
 
-ALL = ["role_i", "kind_i", "form_i", "s0", "s1", "s2", "s3", "s4", "s5", "s6", "t", "x"]
+ALL = ["role_i", "kind_i", "form_i", "s0", "s1", "s2", "s3", "s4", "s5", "s6", "t", "x", "xnone"]
 
 
 def harnesses(tier: str) -> List[H]:
@@ -326,7 +328,7 @@ def harnesses(tier: str) -> List[H]:
         kinds = [0] if role == "inv" else ([0, 1, 2] if tier == "quick" else [0, 1, 2, 3])
         for kind_i in kinds:
             nbits = len(_avail(role, KINDS[kind_i] if role != "inv" else "method"))
-            params = [I("form_i", 0, len(FORMS) - 1)] + [B("s%d" % i) for i in range(nbits)] + [B("t"), I("x", -4, 12)]
+            params = [I("form_i", 0, len(FORMS) - 1)] + [B("s%d" % i) for i in range(nbits)] + [B("t"), I("x", -4, 12), B("xnone")]
             defaults = {"role_i": role_i, "kind_i": kind_i}
             for i in range(nbits, 7):
                 defaults["s%d" % i] = False
